@@ -34,7 +34,7 @@ SEPS = {
     'seq': ('seq', [('str', ','), ('str', 'b')]),
     'alt': ('alt', [('str', ','), ('str', 'b,')]),
 }
-# thorough tier: more element / separator shapes (nullable separator, optional prefix, nested lists,
+# more element / separator shapes (nullable separator, optional prefix, nested lists,
 # lookahead-guarded elements, regex)
 ELEMS_MORE = {
     'optprefix': ('seq', [('opt', ('str', 'b')), ('str', 'a')]),
@@ -83,9 +83,10 @@ def run_shard(rec):
     quick = rec.tier == 'quick'
     rec.deadline = time.time() + (60 if quick else 900)
     maxlen = 5 if quick else 7
-    if not quick:
-        ELEMS.update(ELEMS_MORE)
-        SEPS.update(SEPS_MORE)
+    # (the additional element / separator shapes were thorough-only at first; the whole workload takes
+    # seconds, so both tiers use them and differ in input length only)
+    ELEMS.update(ELEMS_MORE)
+    SEPS.update(SEPS_MORE)
     ins = work.inputs_for('ab,', maxlen)
     ins_small = work.inputs_for('ab,', 4 if quick else 5)
     idx = 0
